@@ -62,6 +62,18 @@ def harnesses(tier):
                    unwind_auto=[10 * LXN, 16 * LXN, 25 * LXN, 40 * LXN], timeout=1500 if tier == 'quick' else 6000, mem_gb=10, functional=True,
                    bounds='every NUL-terminated buffer of 1..%d bytes (all byte values), scan() called until end of input' % LXN,
                    desc='lexer scan() (IR of the current lexer.c): tokens non-empty, contiguous, in order, inside [start, stop]'))
+    # line kinds are enumerated by the driver (symbolic, the two-line shape has no verdict in 900 s): index into LK[] of harness/c15/striplines.c
+    LKN = ['plain', 'continuation', 'empty', 'indented_tab', 'indented_space', 'atx_2', 'blockquote', 'list_bulleted', 'setext_1', 'setext_2', 'meta', 'table', 'definition']
+    PAIRS = [(0, 0), (0, 2), (2, 0), (4, 0), (4, 4), (3, 2), (0, 8), (0, 9), (5, 0), (6, 6), (7, 4), (12, 0), (11, 0), (10, 1)] if tier == 'quick' else [(a, b) for a in range(13) for b in range(13)]
+    for bt in ('BLOCK_PARA', 'BLOCK_BLOCKQUOTE', 'BLOCK_LIST_ITEM', 'BLOCK_CODE_INDENTED', 'BLOCK_CODE_FENCED', 'BLOCK_H2', 'BLOCK_SETEXT_1', 'BLOCK_HTML', 'BLOCK_DEFINITION'):
+        for (a, b2) in PAIRS:
+            if bt == 'BLOCK_CODE_INDENTED' and (a not in (3, 4) or b2 == 2):
+                continue          # indented code starts with an indented line; its trailing empty lines are dropped on purpose (not this harness's subject)
+            hs.append(dict(name='c15_strip_lines_%s_%s_%s' % (bt.lower()[6:], LKN[a], LKN[b2]), src='c15/striplines.c', defs=dict(BT=bt, LK0=a, LK1=b2), pool_off=True,
+                           units=[dict(src='repo:mmd.c', remove=['strip_line_tokens_from_metadata', 'strip_line_tokens_from_deflist', 'strip_line_tokens_from_table']), dict(src='repo:token.c', remove=['token_free', 'token_tree_free']), 'repo:object_pool.c', 'repo:stack.c', 'repo:char.c'],
+                           nobody_ok='*', unwind=10, unwindset=['strip_line_tokens_from_block:1'], timeout=600, mem_gb=4,
+                           bounds='%s holding 1..2 lines of kinds %s, %s; each line a leading token of any kind (text, blank, indent) followed by a text or newline token' % (bt, LKN[a], LKN[b2]),
+                           desc='strip_line_tokens_from_block on a %s: children form a well-formed chain, every text token of every line survives in order, no freed token reachable' % bt))
     SP = 3 if tier == 'quick' else 4
     hs.append(dict(name='c15_tokenize_lines', src='c15/toklines.c', defs=dict(SPAN=SP), pool_off=True,
                    units=[dict(src='repo:mmd.c', remove=['mmd_assign_line_type']), 'repo:token.c', 'repo:object_pool.c', 'repo:stack.c', 'repo:char.c'],
